@@ -44,7 +44,7 @@ theorem generated_pop_getitem {g : LazyLoadingTrees} {l : Lazy} (h : LRep g l) (
 /-- an access through the front end: `pop[key]`, or `pop[a:b:c][key]` -/
 inductive FOp where
   | get (key : Int)
-  | slice (s : Py.Slice) (key : Int)
+  | slice (s : Py.PF.Slice) (key : Int)
 deriving Repr
 
 /-- run a history on the GENERATED front end, threading the read log.  A slice holds THE SAME container object as the population
@@ -69,7 +69,7 @@ theorem frontStep_get (p : Population) (log : List Int) (key : Int) :
     frontStep p log (.get key) = match pop_getitem_int readLog p key log with
       | none => ((p, log), none)
       | some (p', log', t) => ((p', log'), some t) := rfl
-theorem frontStep_slice (p : Population) (log : List Int) (s : Py.Slice) (key : Int) :
+theorem frontStep_slice (p : Population) (log : List Int) (s : Py.PF.Slice) (key : Int) :
     frontStep p log (.slice s key) = match pop_getitem_slice p s with
       | none => ((p, log), none)
       | some sl =>
@@ -111,7 +111,7 @@ theorem frontStep_inv (op : FOp) (g : LazyLoadingTrees) (root : String) (l : Laz
       exact ⟨g', l', by rw [frontStep_get, e], r', get_inv l key l' k hi hk⟩
   | slice s key =>
     have hs := pop_getitem_slice_refines h root s
-    cases hidx : (Py.sliceIndices s (l.len : Int)).bind Py.range3 with
+    cases hidx : (Py.PF.sliceIndices s (l.len : Int)).bind Py.PF.range3 with
     | none =>
       rw [hidx] at hs
       simp only [Option.map_none] at hs
@@ -195,14 +195,14 @@ def sliceSpec (n : Nat) (a b c : Option Int) : Option (List Int) :=
     some (((Py.range n).filter fun i => decide (hi < i ∧ i ≤ lo ∧ (lo - i) % (-step) = 0)).reverse)
 
 /-- **`Population[a:b:c]` as translated (PARTIAL)**: for every population state and every slice, the result is the `NestTrees` over the
-population's own container with the index list `range(*slice(a, b, c).indices(len(self)))` (`Py.sliceIndices` is CPython's clamping
-algorithm, `Py.range3` the arithmetic progression), and `[k]` on it is the CONTAINER's `__getitem__` on the k-th entry (negative `k`
+population's own container with the index list `range(*slice(a, b, c).indices(len(self)))` (`Py.PF.sliceIndices` is CPython's clamping
+algorithm, `Py.PF.range3` the arithmetic progression), and `[k]` on it is the CONTAINER's `__getitem__` on the k-th entry (negative `k`
 wrap, IndexError outside) — so every read goes through the lazy cache (`generated_front_load_at_most_once`).
 MISSING for the full statement "= the sub-sequence Python's slice semantics designate": that this index list equals the independent
 set-builder `sliceSpec` is kernel-checked only on the box `n ≤ 4`, bounds in `None, -5 .. 5`, steps in `None, ±1, ±2, ±3` (the example
 below), not for every `n`; the correspondence compares it with CPython's `slice.indices` on every run. -/
-theorem generated_pop_slice_partial {g : LazyLoadingTrees} {l : Lazy} (h : LRep g l) (root : String) (s : Py.Slice) :
-    pop_getitem_slice ⟨g, root⟩ s = ((Py.sliceIndices s (l.len : Int)).bind Py.range3).map (fun idx => ⟨g, idx⟩) ∧
+theorem generated_pop_slice_partial {g : LazyLoadingTrees} {l : Lazy} (h : LRep g l) (root : String) (s : Py.PF.Slice) :
+    pop_getitem_slice ⟨g, root⟩ s = ((Py.PF.sliceIndices s (l.len : Int)).bind Py.PF.range3).map (fun idx => ⟨g, idx⟩) ∧
     ∀ idx key, (match Py.idx idx key with
        | none => nestl_getitem readLog ⟨g, idx⟩ key (castL l.log) = none
        | some j => match l.get j with
@@ -215,7 +215,7 @@ def boxSteps : List (Option Int) := [none, some 1, some 2, some 3, some (-1), so
 
 /-- the index list of a slice is the designated sub-sequence, on a box (kernel-evaluated; 5 · 12 · 12 · 8 cases, step 0 included) -/
 example : ((List.range 5).all fun n => boxOpts.all fun a => boxOpts.all fun b => boxSteps.all fun c =>
-    decide ((Py.sliceIndices (a, b, c) (n : Int)).bind Py.range3 = sliceSpec n a b c)) = true := by decide +kernel
+    decide ((Py.PF.sliceIndices (a, b, c) (n : Int)).bind Py.PF.range3 = sliceSpec n a b c)) = true := by decide +kernel
 
 /-! ## chaining: `Populations.to_population` -/
 
